@@ -602,6 +602,13 @@ namespace vsim
             t->preempt_countdown = INT64_MAX;
             return;
         }
+        // bursts: sometimes the next preemption follows closely (two nearby preemptions line up
+        // windows that a single delay cannot)
+        if (g_cfg.preempt_burst > 0.0 && g_rng.chance(g_cfg.preempt_burst))
+        {
+            t->preempt_countdown = g_rng.range(1, 24);
+            return;
+        }
         // geometric gap with mean 1/density
         double u = g_rng.unit();
         double gap = 1.0 + (-std::log(1.0 - u * 0.999999)) / g_cfg.preempt_density;
